@@ -267,6 +267,30 @@ def run(ctx):
                     ctx.where(B), key='PROV:%s::set_total_fragments:no-transfer' % FM)
 
 
+    # adding a fragment of one sequence never discards other sequences (except by expiry)
+    ctx.rule('C09.3-no-bulk-discard', 'nothing reachable from start_fragment / add_fragment empties or bulk-filters `pending` other than the expiry sweep (retain on last_update/timeout in cleanup_expired): '
+             'a cap that clears the backlog silently loses every incomplete message of a conforming peer', floor=1)
+    roots_ = [q for q in ctx.F.bodies if q.split('::{')[0] in (FA + '::start_fragment', FA + '::add_fragment')]
+    reach_ = sorted(q for q in P.reachable_from(roots_) if q.startswith('edp_client::fragmentation::'))
+    nb = 0
+    for q in reach_:
+        QB = P.B(q)
+        for bb, t in QB.calls():
+            if not t['args'] or 'pending' not in root_fields(QB, t['args'][0]):
+                continue
+            m = (callee_of(t)[0] or '').rsplit('::', 1)[-1]
+            if m not in ('clear', 'drain', 'retain', 'extract_if', 'split_off', 'shrink_to', 'truncate'):
+                continue
+            nb += 1
+            inst = '%s:pending.%s' % (q.rsplit('::', 1)[1], m)
+            if m == 'retain' and q.split('::{')[0] == FA + '::cleanup_expired':
+                ctx.ok('C09.3-no-bulk-discard', inst, 'the expiry sweep', ctx.where(QB, bb))
+            else:
+                ctx.bad('C09.3-no-bulk-discard', inst, 'pending.%s() is reachable from start_fragment / add_fragment (in %s): fragments of OTHER sequences that are still incomplete and unexpired are thrown away, their messages are never delivered'
+                        % (m, q.rsplit('::', 1)[1]), ctx.where(QB, bb), key='WHO:%s:pending.%s' % (q.split('::{')[0], m))
+    if nb == 0:
+        ctx.ok('C09.3-no-bulk-discard', 'reachable-code', 'no bulk removal on `pending` reachable from the two entry points (%d functions scanned)' % len(reach_))
+
     # the header's atom-cache section reaches the message whichever fragment arrived first
     SB = P.B(FA + '::start_fragment')
     ctx.rule('C09.7-header-data-kept', 'start_fragment stores the header\'s atom_cache_data in the message on both ways in (new sequence, or header after buffered continuations): '
